@@ -155,13 +155,19 @@ theorem cinv_init {X : Ctx} (H : X.OK) :
     have : j = 0 := by omega
     subst this
     simpa using h.symm
-  refine ⟨rfl, Nat.zero_le _, ⟨_, rfl⟩, ?_, rfl, ?_, h0, rfl, Nat.le_refl _, ⟨rfl, rfl⟩, rfl,
+  refine ⟨rfl, Nat.zero_le _, ⟨_, rfl⟩, ?_, rfl, ?_, h0, rfl, Nat.le_refl _, ⟨rfl, rfl⟩, rfl, ?_,
     fun j hj => by omega, ?_⟩
   · intro j q hq
     rw [hone j q hq]
     exact ⟨h0, fun _ => rfl, fun h => by cases h⟩
   · show (1 : Nat) = fcOf X.kn X.oq 0
     rfl
+  · -- all keys are pending in the root
+    have hgd : X.oq.getD 0 default = { s := 0, e := X.keys.length, d := 0 } := by
+      rw [Array.getD_eq_getD_getElem?, hroot]; rfl
+    show (#[] : Array Nat).size + pend X _ 0 = X.keys.length
+    unfold pend eltSize subOf
+    simp [hroot]
   · intro j nd h
     simp at h
 
@@ -362,7 +368,7 @@ theorem convert_wf (vr : Variant) (keys vals : List Bytes) (w : Nat) (ch st lv :
     (hw : ∀ v ∈ vals, v.length = w) (hkl : ∀ k ∈ keys, 2 * k.length < 65535)
     (hsec : sections3 vr keys vals = .ok (ch, st, lv)) :
     ∃ t' lk, convert ch st lv (some w) = .ok t' ∧ t'.opt = {} ∧ t'.bigCnt = 0 ∧
-      t'.elts = some (lk.toList.map (fun k => vals.getD k [])) ∧
+      t'.elts = some (lk.toList.map (fun k => vals.getD k [])) ∧ lk.size = keys.length ∧
       WF keys (List.replicate keys.length true) (fixup lk t') ∧ ShapeOK (fixup lk t') := by
   -- the old trie
   have hb : ∃ nodes, buildOld keys vr.leafSteps = .ok nodes := by
@@ -405,9 +411,13 @@ theorem convert_wf (vr : Variant) (keys vals : List Bytes) (w : Nat) (ch st lv :
   obtain ⟨c, lk, hloop, hinv⟩ := loop_spec H
     (2 * 64 * (ch.bitmaps.length + lv.bitmaps.length) + 4) 0 _ #[] (cinv_init H)
     (by show 2 * oq.size < _; omega)
-  refine ⟨_, lk, convert_eq ch st lv w _ c hstep0 hloop, rfl, rfl, ?_,
+  refine ⟨_, lk, convert_eq ch st lv w _ c hstep0 hloop, rfl, rfl, ?_, ?_,
     wf_of_cinv H c lk hinv, shape_of_cinv H c lk hinv⟩
-  show some c.leaves.toList = _
-  rw [hinv.lks.2]
+  · show some c.leaves.toList = _
+    rw [hinv.lks.2]
+  · have := hinv.cnt
+    unfold pend at this
+    rw [List.drop_of_length_le (by simp)] at this
+    simpa using this
 
 #print axioms convert_wf
